@@ -42,7 +42,8 @@ LoadX(prog, dyn, q) ==
    k |-> l.k, ans |-> l.ans, ball |-> l.ball, lh |-> l.lh, out |-> l.out, gv |-> l.gv, ve |-> l.ve,
    cl |-> <<>>,          \* cl[u]: how often the cleanup of setup_call_cleanup instance u was started
    unspec |-> FALSE,
-   nestcut |-> FALSE]    \* classification only: a cut removed a cleanup entry and uncovered another whose goal is still running
+   nested |-> FALSE]     \* classification only: a cleanup entry was removed by a cut or by failure while the entry directly
+                         \* below it is another cleanup entry whose goal is still running
 
 (* ---- pseudo-variables of the store ---- *)
 OvVar(key)  == [t |-> "v", n |-> "$bb:" \o key, i |-> 0, a |-> <<>>]
@@ -65,7 +66,7 @@ TopNonCatch(cps, j) == IF j = 0 THEN 0 ELSE IF cps[j].kind # "catch" THEN j ELSE
 
 MarkF(u) == F(C1("$scc_mark", I(u)), 0)
 Guarded(c, u) == C1("ignore", C3("catch", c, VI("_scc", u), A("$unspec")))
-FailFrames(c, u) == <<MarkF(u), F(C1("ignore", c), 0), F(Fail, 0)>>
+FailFrames(c, u) == <<F(C1("$scc_markf", I(u)), 0), F(C1("ignore", c), 0), F(Fail, 0)>>
 ExitFrames(c, u) == <<MarkF(u), F(C1("ignore", c), 0)>>
 CutFrames1(e)    == <<MarkF(e.r.i), F(Guarded(e.c, e.r.i), 0)>>
 ExcFrames(e)     == <<MarkF(e.r.i), F(Guarded(e.c, e.r.i), 0), F(Fail, 0)>>
@@ -76,7 +77,7 @@ CutTo(m0, target, rest) ==
   LET idx == SccIdx(m0.cps, Len(m0.cps), target) IN
   [m0 EXCEPT !.cps = SubSeq(m0.cps, 1, target),
              !.gs = CutFrames(m0.cps, idx) \o rest,
-             !.nestcut = @ \/ (idx # <<>> /\ target >= 1 /\ m0.cps[target].kind = "scc")]
+             !.nested = @ \/ (idx # <<>> /\ target >= 1 /\ m0.cps[target].kind = "scc")]
 
 (* run the handlers of the entries idx (topmost first) of old.cps, each under its own store, then *)
 (* continue with goal stack gsF under store stF on top of base.cps                                *)
@@ -179,6 +180,8 @@ StepX(m) ==
                THEN [m0 EXCEPT !.cps = SubSeq(m.cps, 1, id - 1), !.gs = ExitFrames(m.cps[id].c, u) \o rest]
                ELSE cont
   ELSE IF IsF(g, "$scc_mark", 1) THEN [cont EXCEPT !.cl[g.a[1].i] = @ + 1]
+  ELSE IF IsF(g, "$scc_markf", 1) THEN      \* the entry has just been popped by backtracking
+       [cont EXCEPT !.cl[g.a[1].i] = @ + 1, !.nested = @ \/ (h0 >= 1 /\ m.cps[h0].kind = "scc")]
   ELSE IF IsA(g, "$unspec") THEN [cont EXCEPT !.unspec = TRUE]
   ELSE IF IsF(g, "atom_length", 2) THEN
        LET x == Deref(m.st, g.a[1])
